@@ -350,6 +350,7 @@ def run(ctx):
     shared.control_keys_cover_rule(ctx, 'C05.k', floor=4)
     shared.control_index_monotone_rule(ctx, 'C05.l', ['cirq-core/cirq/circuits/'], floor=1)
     _batch_insert_shift(ctx, repo)
+    _placement_sites_key_aware(ctx, repo)
     ctx.decided.append('C05.l placement bookkeeping keeps, per control key, the latest moment that reads it (running maximum)')
     ctx.decided.append('C05.k the control keys the placement logic orders operations by cover every child of a wrapping operation')
     ctx.decided.append('C05.j a one-shot OP_TREE / Iterable argument is walked once: after it has been flattened into a local, the raw argument is not consumed again')
@@ -882,3 +883,37 @@ def _batch_insert_shift(ctx, repo):
         ctx.ob('C05.m', f'{ci.qual}.batch_insert:shift#{k}', ok, '' if ok else
                f'`{ast.unparse(a)}` derives the shift from {sorted(labs) or "nothing"}: insert() returns max(k, p+1) - one past the insertion index even when no moment was created - so later '
                'insertions land one moment too late and can jump over an operation they were to precede', ci.mod.rel, a.lineno)
+
+
+def _placement_sites_key_aware(ctx, repo):
+    """C05.n - every routine of circuit.py that decides where an operation goes looks at its keys as well as its qubits."""
+    ctx.decided.append('C05.n placement routines of circuit.py (those that walk the qubits of an operation and write moments / indices) also consult measurement and control keys, directly or '
+                       'through a key-aware helper (1 known finding: the frontier-based insertion)')
+    ctx.rule('C05.n', 'keys order operations too: every function of cirq.circuits.circuit that decides a position from the qubits of an operation (operates_on(<op>.qubits), a loop over '
+             '<op>.qubits, or a helper that lists them) and then writes a moment or a position table also uses measurement_key_objs / control_keys of the operation or a key-aware '
+             'helper (_can_add_op_at, earliest_available_moment, get_earliest_accommodating_moment_index, the placement cache) - otherwise a classically controlled operation can be '
+             'placed before or next to the measurement it reads', floor=4, style='RG')
+    m = repo.module('cirq-core/cirq/circuits/circuit.py')
+    KEYA = {'measurement_key_objs', 'control_keys', '_can_add_op_at', 'earliest_available_moment', 'get_earliest_accommodating_moment_index', '_PlacementCache',
+            '_latest_available_moment', '_group_into_moment_compatible'}
+    n = 0
+    for fn in [f for f in ast.walk(m.tree) if isinstance(f, ast.FunctionDef)]:
+        uses_q = any(isinstance(c, ast.Call) and isinstance(c.func, ast.Attribute) and c.func.attr == 'operates_on' and c.args and 'qubits' in ast.unparse(c.args[0]) for c in ast.walk(fn)) or \
+            any(isinstance(l, (ast.For, ast.comprehension)) and ast.unparse(l.iter).endswith('.qubits') for l in ast.walk(fn)) or \
+            any(isinstance(c, ast.Call) and isinstance(c.func, ast.Attribute) and c.func.attr == '_can_add_op_at' for c in ast.walk(fn))
+        if not uses_q:
+            continue
+        src = ast.unparse(fn)
+        places = any(isinstance(x, ast.Call) and isinstance(x.func, ast.Attribute) and x.func.attr in ('with_operation', 'with_operations', 'append', 'insert', 'setdefault')
+                     for x in ast.walk(fn)) or '_moments[' in src
+        if not places:
+            continue
+        # nested helper functions count with their parent
+        names = {x.attr for x in ast.walk(fn) if isinstance(x, ast.Attribute)} | {x.id for x in ast.walk(fn) if isinstance(x, ast.Name)}
+        n += 1
+        ok = bool(names & KEYA)
+        ctx.ob('C05.n', f'{m.name}.{fn.name}:key-aware', ok, '' if ok else
+               f'{fn.name} chooses positions from the qubits of the operations alone: a measurement and the operation it controls act on different qubits, so they can be placed in the same '
+               'moment or in the wrong order', m.rel, fn.lineno)
+    if n == 0:
+        raise AnalysisError('C05.n: no placement routine found')
